@@ -23,6 +23,9 @@ import (
 var c06Names = []string{"a", "b.go", "Makefile", "x.go.md", "d"}
 var c06Exts = [][]string{nil, {".go"}, {"Makefile"}, {".go", ".md"}, {"go"}, {".md", ".go.md"}}
 
+// lists with repeated and unsorted entries (a list is a set of suffixes; the caller's slice is only read)
+var c06DupExts = [][]string{{".md", ".go", ".md"}, {"go", "go", "Makefile", ".go"}}
+
 type c06Replay struct {
 	Kind   string          `json:"kind"`
 	Depth  []int           `json:"depth"`
@@ -31,7 +34,11 @@ type c06Replay struct {
 	Pre    map[string]byte `json:"pre"`
 	Target string          `json:"target_state"`
 	Route  string          `json:"route"`
+	Extra  string          `json:"extra_options,omitempty"`
 }
+
+// options that do not concern what Mkdir creates (the massive option only changes how it is done)
+var c06Extras = []string{"json", "yaml", "toml", "fmt", "noiter", "strict", "nil", "massive", "massive-nil", "nil,yaml,strict", "massive,toml"}
 
 func c06Case(c *rep.Ctx, r c06Replay) {
 	f := enum.Build(r.Depth, r.Names)
@@ -58,6 +65,14 @@ func c06Case(c *rep.Ctx, r c06Replay) {
 		os.Chdir(filepath.Dir(target))
 		defer os.Chdir(wd)
 		opts[0] = gtree.WithTargetDir("./" + filepath.Base(target) + "/.")
+	case "given-twice":
+		// the later option counts
+		opts = []gtree.Option{gtree.WithTargetDir(""), gtree.WithTargetDir(filepath.Dir(target)), nil, gtree.WithFileExtensions(r.Exts), gtree.WithTargetDir(target)}
+	case "cwd-given-last":
+		wd, _ := os.Getwd()
+		os.Chdir(target)
+		defer os.Chdir(wd)
+		opts = []gtree.Option{gtree.WithTargetDir(filepath.Join(j.Root, "elsewhere")), gtree.WithFileExtensions(r.Exts), gtree.WithTargetDir("")}
 	case "cwd-empty-option", "cwd-no-option":
 		// the documented default: the current directory (no option, or an empty string)
 		wd, _ := os.Getwd()
@@ -68,7 +83,14 @@ func c06Case(c *rep.Ctx, r c06Replay) {
 			opts = append(opts, gtree.WithTargetDir(""))
 		}
 	}
-	pan := sut.Guard(func() {
+	opts = append(opts, extraOpts(r.Extra, "")...)
+	extsGiven := append([]string{}, r.Exts...)
+	defer func() {
+		if strings.Join(extsGiven, "\x00") != strings.Join(r.Exts, "\x00") {
+			c.Violation("C06|callers-extension-list-modified", fmt.Sprintf("tree=%s: the list %q passed to WithFileExtensions is %q after the call", model.Key(m), extsGiven, r.Exts), len(r.Depth), nil)
+		}
+	}()
+	pan := guardMaybeMassive(strings.Contains(r.Extra, "massive"), func() {
 		if r.Route == "root" {
 			err = gtree.MkdirFromRoot(sut.BuildRoot(f[0]), opts...)
 		} else {
@@ -80,6 +102,9 @@ func c06Case(c *rep.Ctx, r c06Replay) {
 	c.Trans(len(plan))
 	size := len(r.Depth)*10 + len(r.Exts) + len(r.Pre)
 	desc := fmt.Sprintf("route=%s tree=%s exts=%q pre=%v target=%s", r.Route, model.Key(m), r.Exts, r.Pre, r.Target)
+	if r.Extra != "" {
+		desc += " extra options=" + r.Extra
+	}
 	if pan != "" {
 		c.Violation("C06|panic", desc+": "+pan, size, r)
 		return
@@ -164,7 +189,12 @@ func init() {
 					if c.R.States%3000 == 1 {
 						c.Sample(map[string]any{"doc": enum.Spell(d, names, enum.Canonical), "exts": c06Exts})
 					}
-					for ei, exts := range c06Exts {
+					allExts := c06Exts
+					if n <= 3 {
+						allExts = append(append([][]string{}, c06Exts...), c06DupExts...)
+					}
+					for ei, exts := range allExts {
+						exts = append([]string{}, exts...)
 						if n == maxN && n > 4 && ei%2 == 1 {
 							continue
 						}
@@ -175,6 +205,21 @@ func init() {
 							b.Route = "root"
 							c06Case(c, b)
 						}
+						if n <= 3 && ei <= 1 {
+							for _, ex := range c06Extras {
+								b := base
+								b.Extra = ex
+								c06Case(c, b)
+								if len(f) == 1 {
+									b.Route = "root"
+									c06Case(c, b)
+								}
+								if !strings.Contains(ex, "massive") {
+									b.Pre = map[string]byte{roots[len(roots)-1]: 'd', "unrelated": 'f'}
+									c06Case(c, b)
+								}
+							}
+						}
 						if ei > 1 && n > 3 {
 							continue
 						}
@@ -182,7 +227,7 @@ func init() {
 						b.Target = "missing"
 						c06Case(c, b)
 						if n <= 3 {
-							for _, tg := range []string{"cwd-empty-option", "cwd-no-option", "trailing-slash", "relative"} {
+							for _, tg := range []string{"cwd-empty-option", "cwd-no-option", "trailing-slash", "relative", "given-twice", "cwd-given-last"} {
 								b := base
 								b.Target = tg
 								c06Case(c, b)
@@ -248,6 +293,40 @@ func init() {
 				c06Case(c, c06Replay{Kind: "c06", Depth: dr, Names: nr, Exts: ex, Route: "md", Target: "empty"})
 				// the last root exists already: nothing at all may be created
 				c06Case(c, c06Replay{Kind: "c06", Depth: dr, Names: nr, Exts: ex, Route: "md", Target: "empty", Pre: map[string]byte{fmt.Sprintf("root%02d", size-1): 'd'}})
+			}
+		}
+		// many roots (thresholds in the up-front existence check): R roots, exactly one of them exists already, at the
+		// first, a middle, and each of the last 12 positions
+		rootCounts := []int{41, 50, 63, 64, 65, 67, 70, 99, 100, 101, 128, 129}
+		if c.Thorough() {
+			rootCounts = nil
+			for r := 41; r <= 160; r++ {
+				rootCounts = append(rootCounts, r)
+			}
+		}
+		for _, R := range rootCounts {
+			if !c.Take() || c.Expired() {
+				continue
+			}
+			var dr []int
+			var nr []string
+			for i := 0; i < R; i++ {
+				dr = append(dr, 1, 2)
+				nr = append(nr, fmt.Sprintf("root%03d", i), "k.go")
+			}
+			c.StateN(1)
+			c.Inc("size_family_cases")
+			c06Case(c, c06Replay{Kind: "c06", Depth: dr, Names: nr, Exts: []string{".go"}, Route: "md", Target: "empty"})
+			pos := []int{0, R / 2}
+			for p := R - 12; p < R; p++ {
+				pos = append(pos, p)
+			}
+			for _, p := range pos {
+				kind := byte('d')
+				if p%2 == 1 {
+					kind = 'f'
+				}
+				c06Case(c, c06Replay{Kind: "c06", Depth: dr, Names: nr, Exts: nil, Route: "md", Target: "empty", Pre: map[string]byte{fmt.Sprintf("root%03d", p): kind}})
 			}
 		}
 		// OS refusals on the real file system: over-long name, target below a regular file
